@@ -17,22 +17,14 @@ func (ls *LState) CheckAny(n int) LValue {
 	return ls.Get(n)
 }
 
+// CheckInt, like luaL_checkint, accepts whatever CheckNumber accepts: a number or a
+// string convertible to one.
 func (ls *LState) CheckInt(n int) int {
-	v := ls.Get(n)
-	if intv, ok := v.(LNumber); ok {
-		return int(intv)
-	}
-	ls.TypeError(n, LTNumber)
-	return 0
+	return int(ls.CheckNumber(n))
 }
 
 func (ls *LState) CheckInt64(n int) int64 {
-	v := ls.Get(n)
-	if intv, ok := v.(LNumber); ok {
-		return int64(intv)
-	}
-	ls.TypeError(n, LTNumber)
-	return 0
+	return int64(ls.CheckNumber(n))
 }
 
 func (ls *LState) CheckNumber(n int) LNumber {
@@ -146,11 +138,7 @@ func (ls *LState) OptInt(n int, d int) int {
 	if v == LNil {
 		return d
 	}
-	if intv, ok := v.(LNumber); ok {
-		return int(intv)
-	}
-	ls.TypeError(n, LTNumber)
-	return 0
+	return int(ls.CheckNumber(n))
 }
 
 func (ls *LState) OptInt64(n int, d int64) int64 {
@@ -158,11 +146,7 @@ func (ls *LState) OptInt64(n int, d int64) int64 {
 	if v == LNil {
 		return d
 	}
-	if intv, ok := v.(LNumber); ok {
-		return int64(intv)
-	}
-	ls.TypeError(n, LTNumber)
-	return 0
+	return int64(ls.CheckNumber(n))
 }
 
 func (ls *LState) OptNumber(n int, d LNumber) LNumber {
@@ -170,11 +154,7 @@ func (ls *LState) OptNumber(n int, d LNumber) LNumber {
 	if v == LNil {
 		return d
 	}
-	if lv, ok := v.(LNumber); ok {
-		return lv
-	}
-	ls.TypeError(n, LTNumber)
-	return 0
+	return ls.CheckNumber(n)
 }
 
 func (ls *LState) OptString(n int, d string) string {
